@@ -78,6 +78,11 @@ func (r *bucketRegistry) unregisterBucket(bucket *Bucket) {
 	r.lock.Lock()
 	defer r.lock.Unlock()
 
+	if registered := r.buckets[name]; registered == nil || registered.sqliteDB != bucket.sqliteDB {
+		// This handle's bucket has been deleted (and the name may have been re-used by a new
+		// bucket since): there is no reference of ours left to release.
+		return
+	}
 	bucketCount := r.bucketCount[name]
 	if bucketCount < 0 {
 		warn("unregisterBucket couldn't find %v", bucket)
@@ -102,11 +107,11 @@ func (r *bucketRegistry) deleteBucket(ctx context.Context, bucket *Bucket) error
 	r.lock.Lock()
 	defer r.lock.Unlock()
 
-	_, ok := r.buckets[name]
-	if ok {
+	// Only forget the registry entry if it is this bucket's, not a newer bucket that re-uses the name:
+	if registered, ok := r.buckets[name]; ok && registered.sqliteDB == bucket.sqliteDB {
 		delete(r.buckets, name)
+		delete(r.bucketCount, name)
 	}
-	delete(r.bucketCount, name)
 	return DeleteBucketAt(bucket.url)
 }
 
